@@ -389,6 +389,22 @@ theorem preimageBody_kl (ext : Nat → Nat) (t s : Int) (rn : List (Key × Key))
     | ok _ =>
       simp only
       split
+      · next e heq =>
+        refine base _ (fun h => ?_)
+        simp only [Prod.mk.injEq, Except.error.injEq, and_true] at h
+        subst h
+        unfold preimageFused at heq
+        split at heq
+        · cases heq
+        split at heq
+        · cases heq
+        split at heq
+        · next e' hs =>
+          simp only [Except.error.injEq] at heq
+          subst heq
+          exact supportLevels_noNR _ _ hs
+        · cases heq
+      split
       · obtain ⟨k, l⟩ := imageF_kl ext none (some (intPairs (resolveRename m1.tbl rn))) []
           (badKeys (resolveRename m1.tbl rn)) lv fa (2 * m1.nvars + 4) t s {} m1 hI hL
         generalize imageF none (some (intPairs (resolveRename m1.tbl rn))) []
